@@ -541,10 +541,14 @@ def size_cases():
 
 def padding_cases():
     out = []
-    for kind in ("exact", "aligned-absolute", "aligned-relative"):
+    for kind in ("exact", "aligned-absolute", "aligned-relative", "the-padding-already-in-effect"):
         def setup(W, eng, st, kind=kind):
             rel = kind == "aligned-relative"
-            p = st.new("AlignedPadding" if kind.startswith("aligned") else "ExactPadding", {"pid": z3.Int("newpad"), "relative": rel})
+            if kind == "the-padding-already-in-effect":
+                p = W.pad              # the very object the iterator holds: still an operation on the iterator (rejected once it is closed)
+                st.H(p).setdefault("relative", False)
+            else:
+                p = st.new("AlignedPadding" if kind.startswith("aligned") else "ExactPadding", {"pid": z3.Int("newpad"), "relative": rel})
 
             def check(eng, k, val, s, snap):
                 it = s.H(W.self_)
